@@ -98,7 +98,9 @@ CHECKS = {
                 "everything is delivered, then one run per hook point k (abort at k, restart) which must end delivered with exactly one record each. Oracle (sqlite file read "
                 "only): after every answered notification, after every restart and after the retry rounds, for every answered revocation and every registered, non-misbehaving "
                 "tower exactly one of: receipt row verifying under the tower id / pending row with the full body / invalid row with the full body; every notification is "
-                "answered; no panic text. distinct = distinct (tower scripts, fault plan).",
+                "answered; no panic text. Every scenario (other than the sweeps) ends with an abandon phase: two more towers A and B are registered, three more revocations "
+                "end up invalid at both / pending at A and invalid at B / pending at both, then `abandontower A`: B's three records (and everybody else's) are checked at "
+                "once, after a client restart, and B's invalid / pending counts reported by gettowerinfo are compared with the database. distinct = distinct (tower scripts, fault plan).",
         "assumptions": [
             "fake towers speak HTTP on loopback; Tor / TLS / a real lightningd are replaced by protocol-level fakes",
             "moving a record takes the client two steps under one lock: a double record is only reported if it persists over 4 reads 120 ms apart",
@@ -119,7 +121,10 @@ CHECKS = {
                 "retry-loop trace never shows two loops of one tower active at once; retrytower is accepted in the documented settled states; no panic text. "
                 "Every second scenario ends with a flap: right after the retrier has delivered, the tower goes down again, one more revocation arrives, the tower is back "
                 "250 ms later; that revocation too must be delivered within the same bound. The 'shown unreachable after give-up' check waits up to 12 s for the status "
-                "to settle (the give-up instant is the product's wall clock). distinct = distinct (kind, recovery instant, manual retry, scenario id).",
+                "to settle (the give-up instant is the product's wall clock). Every sixth scenario is the failed-retrier kind instead: subscription error + a tower "
+                "answering renewals with correctly signed receipts that do not extend the subscription (a permanent failure of the retry) until the tower is shown in "
+                "subscription_error with everything pending (20 s, else inconclusive); the tower then renews properly and either retrytower (documented for that state: "
+                "must be accepted) or one more revocation must get everything delivered within the same bound. distinct = distinct (kind, recovery instant, manual retry, scenario id).",
         "assumptions": [
             "the product defines its back-off in wall-clock seconds: bounds are >= 3x the configured delays plus 8 s slack; unbounded 'eventually' is restated as this bound",
             "one tower per scenario; timing-independent signals (missing rows, floods, overlapping loops, panic text) are verdicts immediately",
@@ -217,7 +222,9 @@ CHECKS = {
         "level": "exploration",
         "rule": "case = one execution of a scenario: a tower prepared by a model-checked sequential setup, then 2-3 real OS threads (chain thread delivering one "
                 "poll = 1 block, or a disconnection + 2 blocks; one or two API threads with register / add (new, same twice, update, late) / get_appointment / "
-                "get_subscription_info; 14 scenarios incl. a renewal racing with the block that purges that user) under the serialising PCT scheduler (every hooked lock acquisition/release/condvar wait is a scheduling point; 0-3 "
+                "get_subscription_info; 17 scenarios incl. a renewal racing with the block that purges that user, a late appointment racing with the reorg of the block that "
+                "holds its penalty, an appointment racing with the block that holds its dispute and its penalty, and two late appointments racing with the node mining the "
+                "penalty - a node event executed by the chain thread inside the concurrent phase - and the tower processing that block) under the serialising PCT scheduler (every hooked lock acquisition/release/condvar wait is a scheduling point; 0-3 "
                 "priority change points) or free-running with seeded delays; and, unscheduled, against the real teosd binary (prepared database put in place, teosd "
                 "bootstrapped by its own main.rs, API threads as real HTTP/gRPC clients and the poll granted by the fake bitcoind after seeded 0-4 ms delays; the "
                 "counters real_teosd_matched_reference[scenario#k] show which sequential orders the real runs looked like). A third engine (e3s) soaks the real binary: 6 client "
@@ -227,7 +234,9 @@ CHECKS = {
                 "(user, channel) holding an acknowledged version, every delivered dispute answered for every holder with a penalty the node was given, every receipt "
                 "verifies (counters soak_overlapping_request_pairs / soak_requests_overlapping_a_block_event show the concurrency actually obtained). Oracle: (replies with all fields, final users/appointments/trackers rows, multiset "
                 "of broadcasts) must equal the outcome of SOME sequential interleaving of the same operations (block events atomic), the sequential outcomes "
-                "being produced by scripted schedules on identical towers. non-trivial = execution with >= 1 context switch between threads; distinct = "
+                "being produced by scripted schedules on identical towers; the witness names the sequential outcome that explains most of the durable state (fewest state "
+                "differences other than the start_block column first), tracker differences are labelled missing / extra / confirmation; PCT change points range over "
+                "acquisitions and releases of the whole execution. non-trivial = execution with >= 1 context switch between threads; distinct = "
                 "distinct (scenario, schedule decision string).",
         "assumptions": [
             "interleavings finer than lock granularity (atomics, inside sqlite) are not controlled by the serial scheduler (the free-running mode samples them)",
@@ -262,7 +271,9 @@ CHECKS = {
         "rule": "fault space = for each history H (an E1 history of 25-65 steps that passed every sequential monitor): for EVERY node RPC issued in H an outage that "
                 "starts exactly at that RPC (transport errors for RPCs, transient errors for every block-source call) and lasts k in {0,1,2} further polls, with and "
                 "without H's next mined blocks arriving meanwhile; plus failures of 1-3 consecutive block-source calls at the start / middle / end of every poll with "
-                ">= 4 calls. Tower calls run on worker threads whose every lock and condvar operation goes through the scheduler observer, so 'the call waits for the "
+                ">= 4 calls; plus five idle outages per history (node down right after one of the history's polls, the next poll fails, the four endpoints must answer "
+                "'unavailable', the node comes back on the same tip / on an equal-work sibling of it / one block short of it - a tip that is not better than the tower's - and "
+                "the API must answer again within two polls; the run ends there). Tower calls run on worker threads whose every lock and condvar operation goes through the scheduler observer, so 'the call waits for the "
                 "reachability signal holding these locks' is observed as a state; time is virtual (bounded waits expire only when the harness ticks the clock). "
                 "Oracle (bounded progress): (1) the call that hit the outage never returns with its RPC given up; (1b) a call that neither returns nor parks itself waiting "
                 "for the node while > 400 of its RPCs fail with transport errors has noticed the outage without waiting for it to end: violation (with the value of the "
